@@ -44,13 +44,25 @@ use crate::verif::{AtomicPtr, Event, Op};
 
 pub const NONE: usize = 0b11;
 
+/// The cells the environment touches, as plain pointers in scalar statics (references kept in
+/// `Option` fields of a struct are read back imprecisely by CBMC, and a store through an imprecise
+/// pointer makes every later read symbolic).
+static mut E_STORAGE: *const AtomicPtr<Obj> = core::ptr::null();
+static mut E_NODE: *const Node = core::ptr::null();
+static mut E_HELPER: *const Node = core::ptr::null();
+fn e_storage() -> &'static AtomicPtr<Obj> {
+    unsafe { &*E_STORAGE }
+}
+fn e_node() -> &'static Node {
+    unsafe { &*E_NODE }
+}
+fn e_helper() -> &'static Node {
+    unsafe { &*E_HELPER }
+}
+
 pub struct Env {
     pub on: bool,
-    pub storage: Option<&'static AtomicPtr<Obj>>,
     pub storage_addr: usize,
-    pub node: Option<&'static Node>,
-    /// a second real node whose embedded envelope the environment's helper uses
-    pub helper: Option<&'static Node>,
     pub slot_addr: [usize; 9],
     pub control_addr: usize,
     pub rounds: u8,
@@ -79,14 +91,17 @@ pub struct Env {
     pub my_gen: usize,
     pub in_window: [bool; POOL],
     pub helped: bool,
+    /// 0 = symbolic environment; otherwise a fixed, maximally hostile script (bit 0: pay the call's
+    /// debt at every opportunity, bit 1: replace the stored value at every opportunity, bit 2: help
+    /// at every opportunity) – deterministic, so every branch folds and a retry loop that such an
+    /// adversary can keep spinning shows up as a failed unwinding assertion within seconds.
+    pub scripted: u8,
+    pub toggle: usize,
 }
 
 pub static mut ENV: Env = Env {
     on: false,
-    storage: None,
     storage_addr: 0,
-    node: None,
-    helper: None,
     slot_addr: [0; 9],
     control_addr: 0,
     rounds: 1,
@@ -105,6 +120,8 @@ pub static mut ENV: Env = Env {
     my_gen: 0,
     in_window: [false; POOL],
     helped: false,
+    scripted: 0,
+    toggle: 0,
 };
 
 pub fn env() -> &'static mut Env {
@@ -112,22 +129,24 @@ pub fn env() -> &'static mut Env {
 }
 
 pub fn stored_now() -> usize {
-    env().storage.unwrap().raw().load(SeqCst) as usize
+    e_storage().raw().load(SeqCst) as usize
 }
 
 fn my_slot_now() -> usize {
     let e = env();
-    list_h::peek_slot(e.node.unwrap(), e.my_slot)
+    list_h::peek_slot(e_node(), e.my_slot)
 }
 
 /// Sets the environment up for one call on `storage` by the thread owning `node`.
 pub fn install(storage: &AtomicPtr<Obj>, node: &'static Node, helper: &'static Node, rounds: u8) {
     let e = env();
     e.on = true;
-    e.storage = Some(unsafe { &*(storage as *const AtomicPtr<Obj>) });
+    unsafe {
+        E_STORAGE = storage as *const AtomicPtr<Obj>;
+        E_NODE = node as *const Node;
+        E_HELPER = helper as *const Node;
+    }
     e.storage_addr = storage as *const _ as usize;
-    e.node = Some(node);
-    e.helper = Some(helper);
     e.control_addr = list_h::control_addr(node);
     e.rounds = rounds;
     e.actions = 0;
@@ -157,6 +176,8 @@ pub fn install(storage: &AtomicPtr<Obj>, node: &'static Node, helper: &'static N
     e.focus = POOL;
     e.window_open = false;
     e.helped = false;
+    e.scripted = 0;
+    e.toggle = 0;
     model::log_reset();
     model::track_mine(true);
     unsafe { crate::verif::set_hooks(Some(before), Some(after)) };
@@ -208,7 +229,7 @@ fn step_write(q: usize) {
         return;
     }
     unsafe { model::LEDGER.cnt[q] += 1 };
-    e.storage.unwrap().raw().store(model::ptr(q) as *mut Obj, SeqCst);
+    e_storage().raw().store(model::ptr(q) as *mut Obj, SeqCst);
     passed_through(q);
     e.actions += 1;
 }
@@ -239,7 +260,7 @@ fn step_pay() {
         // nobody can hold a reference to a destroyed object, so nobody can be paying for it
         return;
     }
-    list_h::poke_slot(e.node.unwrap(), e.my_slot, NONE);
+    list_h::poke_slot(e_node(), e.my_slot, NONE);
     unsafe { model::LEDGER.cnt[p] += 1 };
     model::mine_add(p, 1);
     e.covered = false;
@@ -252,7 +273,7 @@ fn step_help() {
     if !e.window_open {
         return;
     }
-    let node = e.node.unwrap();
+    let node = e_node();
     // L-H: only for a reader that is loading *this* storage
     if list_h::view(node).helping.active_addr != e.storage_addr {
         return;
@@ -264,7 +285,7 @@ fn step_help() {
     };
     unsafe { model::LEDGER.cnt[q] += 1 };
     e.inflight[q] += 1;
-    let envelope = list_h::own_handover_addr(e.helper.unwrap());
+    let envelope = list_h::own_handover_addr(e_helper());
     helping_h::poke_handover(envelope, model::addr(q));
     list_h::poke_control(node, envelope | helping_h::C_REPL_TAG);
     e.window_open = false;
@@ -315,7 +336,38 @@ fn step_reuse() {
     e.actions += 1;
 }
 
+fn scripted_round() {
+    let e = env();
+    if e.scripted & 4 != 0 {
+        step_help();
+    }
+    if e.scripted & 1 != 0 {
+        step_pay();
+    }
+    if e.scripted & 2 != 0 {
+        // alternate between two other objects so that the value differs from what was read last
+        e.toggle += 1;
+        let cur = model::index_of(stored_now());
+        let q = match cur {
+            Some(0) => 1,
+            Some(1) => 2,
+            _ => 0,
+        };
+        unsafe { model::LEDGER.cnt[q] += 1 };
+        e_storage().raw().store(model::ptr(q) as *mut Obj, SeqCst);
+        e.in_hist[q] = true;
+        if e.window_open {
+            e.in_window[q] = true;
+        }
+        e.actions += 1;
+    }
+}
+
 fn round() {
+    if env().scripted != 0 {
+        scripted_round();
+        return;
+    }
     if nd::any_bool() {
         step_help();
     }
